@@ -96,3 +96,41 @@ Theorem ro_pinned_refuted :
   (gate false (POpen 1 [] 9 0 (ARaw [])) = true /\ may_mutate (POpen 1 [] 9 0 (ARaw [])) = true) /\
   (gate false (POpen 1 [] 17 0 (ARaw [])) = true /\ may_mutate (POpen 1 [] 17 0 (ARaw [])) = true).
 Proof. vm_compute. repeat split; reflexivity. Qed.
+
+(* ---- which EXTENDED requests can modify anything: decided by the extension name, byte for byte ---- *)
+Lemma bytes_eqb_true : forall a b, bytes_eqb a b = true -> a = b.
+Proof.
+  unfold bytes_eqb. intros a. induction a as [|x a IH]; intros [|y b] H; cbn in H; try discriminate H; [reflexivity|].
+  apply andb_prop in H. destruct H as [Hlen H]. apply andb_prop in H. destruct H as [Hxy Hrest].
+  apply Byte.byte_dec_bl in Hxy. subst y. f_equal. apply IH. rewrite Hlen. exact Hrest.
+Qed.
+
+(* the name the request carries, as the decoder reads it: the string after the request id *)
+Definition ext_name (payload : bytes) : option bytes :=
+  match parse [KU32; KStr] payload with
+  | Ok ([FU32 _; FStr name], _) => Some name
+  | _ => None
+  end.
+
+Theorem ext_modifying_only_exact_names : forall payload p,
+  dec_ext_A payload = Ok p -> may_mutate p = true ->
+  ext_name payload = Some n_posix_rename \/ ext_name payload = Some n_hardlink.
+Proof.
+  intros payload p. unfold dec_ext_A, ext_name, bind.
+  destruct (parse [KU32; KStr] payload) as [[fs rest]|e|]; [|intros H; discriminate H|intros H; discriminate H].
+  destruct fs as [|f1 fs]; [intros H; discriminate H|].
+  destruct f1; try (intros H; discriminate H).
+  destruct fs as [|f2 fs]; [intros H; discriminate H|].
+  destruct f2; try (intros H; discriminate H).
+  destruct fs as [|f3 fs]; [|intros H; discriminate H].
+  destruct (bytes_eqb _ n_statvfs) eqn:E1.
+  - destruct (parse [KU32; KStr; KStr] payload) as [[fs2 r2]|e2|]; [|intros H; discriminate H|intros H; discriminate H].
+    intros H Hm. exfalso. revert H Hm.
+    repeat (match goal with |- context [match ?x with _ => _ end] => destruct x end; try (intros H; discriminate H)).
+    intros H; inversion H; subst; cbn; intros Hm; discriminate Hm.
+  - destruct (bytes_eqb _ n_posix_rename) eqn:E2.
+    + intros _ _. left. apply bytes_eqb_true in E2. rewrite E2. reflexivity.
+    + destruct (bytes_eqb _ n_hardlink) eqn:E3.
+      * intros _ _. right. apply bytes_eqb_true in E3. rewrite E3. reflexivity.
+      * intros H Hm. inversion H; subst. cbn in Hm. discriminate Hm.
+Qed.
